@@ -152,7 +152,7 @@ def finish(ctx, level="other"):
         "checker_cmd": "bin/check %s --tier %s" % (ctx.prop, ctx.tier),
         "trusted_base": ctx.trusted,
         "rules": by_rule,
-        "configs": {c: {"features": R.CONFIGS[c], "bodies": len(ctx.dbs[c].bodies), "driver_wall_s": round(ctx.builds[c].wall, 2), "rustc": ctx.dbs[c].d.get("rustc")} for c in ctx.builds},
+        "configs": {c: {"features": R.CONFIGS.get(c, R.CONFIGS.get(c.split("-")[0], "")), "bodies": len(ctx.dbs[c].bodies), "driver_wall_s": round(ctx.builds[c].wall, 2), "rustc": ctx.dbs[c].d.get("rustc")} for c in ctx.builds},
         "functions_analysed": sorted({k[1] for k, v in ctx.analysed.items() if v is not None}),
         "samples": ctx.samples or [{"rule": o["rule"], "key": o["key"], "status": o["status"], "detail": o["detail"]} for o in ctx.obs[:12]],
         "obligation_list": [{"rule": o["rule"], "key": o["key"], "status": o["status"], "cfg": o["cfg"], "at": o["at"], "detail": o["detail"][:300]} for o in ctx.obs],
